@@ -1,15 +1,15 @@
 /- Tie obligations: constants regenerated from /repo must equal the ones the C12 model uses. -/
-import Banyan.Generated.Facts
+import Banyan.Generated.C12
 import Banyan.Model.C12
 
 namespace Banyan.Tie.C12
 open Banyan
 
-theorem delim_tie : Generated.entityDelimiter = C12.delim := rfl
-theorem esc_tie : Generated.entityEscape = C12.esc := rfl
-theorem vt_null : Generated.vtUnknown = C12.TagValue.null.typeByte := rfl
-theorem vt_str : Generated.vtStr = (C12.TagValue.str []).typeByte := rfl
-theorem vt_int : Generated.vtInt64 = (C12.TagValue.int 0).typeByte := rfl
-theorem vt_bin : Generated.vtBinaryData = (C12.TagValue.bin []).typeByte := rfl
+theorem delim_tie : Generated.C12.entityDelimiter = C12.delim := rfl
+theorem esc_tie : Generated.C12.entityEscape = C12.esc := rfl
+theorem vt_null : Generated.C12.vtUnknown = C12.TagValue.null.typeByte := rfl
+theorem vt_str : Generated.C12.vtStr = (C12.TagValue.str []).typeByte := rfl
+theorem vt_int : Generated.C12.vtInt64 = (C12.TagValue.int 0).typeByte := rfl
+theorem vt_bin : Generated.C12.vtBinaryData = (C12.TagValue.bin []).typeByte := rfl
 
 end Banyan.Tie.C12
